@@ -53,6 +53,10 @@ Definition recv_result := recv_result_with recv_handlers.
 Definition recv_into_result := recv_result_with recv_into_handlers.
 
 (* ---- the asynchronous transport, one task ---- *)
+Section AsyncTransport.
+Variable fl : flags.
+Notation run_method := (run_method fl).
+
 Record tstate := { sh : shared; closing : bool; tr_closing : bool }.
 Definition tstate0 : tstate := {| sh := shared0; closing := false; tr_closing := false |}.
 
@@ -116,6 +120,8 @@ Fixpoint run_ops (std : bool) (ops : list op) (st : tstate) (answers : list ans)
       let '(obs2, rest') := run_ops std ops' st1 rest in
       (obs1 ++ obs2, rest')
   end.
+
+End AsyncTransport.
 
 (* ---- the blocking transport ---- *)
 (* one answer of the SSL socket: method called, how it ended.  raw = recorded below the stdlib's SSLSocket.read, so its
